@@ -29,6 +29,17 @@ Theorem c16_jws_deserialize_compact :
     match jws_deserialize_compact g P reg ka v with Err e => allowed_exn e = true | Ok _ => True end.
 Proof. exact jws_deserialize_compact_ok. Qed.
 
+(* jws.extract_compact followed by jws.validate_compact (the two public steps used separately).  Token inputs
+   of type bytearray / memoryview reach the same bytes through to_bytes (bytes(x)): they are [CBytes]. *)
+Theorem c16_jws_extract_then_validate :
+  forall P g reg ka value, prims_ok P -> g_kid_repr g = true -> needs_jws_compact g = true -> jws_reg_wf reg = true ->
+    match jws_extract_compact g P value with
+    | Ok o => match jws_validate g P reg ka true (cs_protected o) (cs_hseg o ++ 46 :: cs_pseg o) (cs_sseg o) with
+              | Err e => allowed_exn e = true | Ok _ => True end
+    | Err e => allowed_exn e = true
+    end.
+Proof. exact jws_extract_then_validate_ok. Qed.
+
 (* jwt.decode with a JWS registry *)
 Theorem c16_jwt_decode_jws :
   forall P g reg ka v, prims_ok P -> g_kid_repr g = true -> needs_jws_compact g = true -> g_rec_claims g = true -> jws_reg_wf reg = true ->
@@ -292,3 +303,4 @@ Print Assumptions c16_contract_classes.
 Print Assumptions c16_deep_kid_refuted.
 Print Assumptions c16_pkcs7_unpad_total.
 Print Assumptions c16_pkcs7_unpad_examples.
+Print Assumptions c16_jws_extract_then_validate.
